@@ -13,8 +13,8 @@ META = {
                         'operator shapes of depth <= 2 with symbolic leaves; compare_languages: all pairs of languages over words of '
                         'length <= 2; grammars: the C08 candidate-rule families, words <= 3',
                'thorough': 'reference automata one notch larger, length bound 4'},
-    'outside': 'answers outside the rendered families (arbitrary text); checker length bounds above the stated one; notebook_experimental '
-               'and automata_checker front ends; TM / PDA exercises',
+    'outside': 'answers outside the rendered families (arbitrary text); checker length bounds above the stated one; TM / PDA exercises; '
+               'cfg_check_chomsky as a judge of wrong answers',
     'oracle': 'reference semantics of C01 / C05 / C07 (reachability matrices, denotational regexps, derivability tables) on reference and '
               'answer; the criterion is the weakest reading of the exercise: language agreement up to the length bound plus the '
               'structural requirement named per checker',
